@@ -169,10 +169,14 @@ def run_scenario(spec):
                         rc, err = e2replay.run(exe, sch, v['nondet'], wd)
                     ok, how = e2replay.classify(rc, err, tsan=bool(v.get('race')))
                     if v.get('race') and 'ThreadSanitizer: data race' not in err: ok = False
+                    if ok and not e2replay.same_kind(v['assertion'], rc, err):
+                        # the native run fails, but not in the way the model says (e.g. an unrelated abort): that confirms nothing
+                        ok, how = False, 'native run under the forced schedule fails differently (%s): not a reproduction of "%s"' % (how[:200], v['assertion'][:80])
                     if not ok and v['assertion'].startswith('memory:'):
                         # lifetime violations do not crash a native run by themselves: confirm with valgrind under the same schedule
                         rc, err = e2replay.run(exe, sch, v['nondet'], wd, valgrind=True)
                         ok, how = e2replay.classify(rc, err)
+                        if ok and not e2replay.same_kind(v['assertion'], rc, err): ok = False
                 except Exception as ex:
                     ok, how = False, 'replay machinery failed: %s' % ex
                 rec['reproduced'] = ok; rec['how'] = how
